@@ -329,7 +329,7 @@ def run_late_exceptions(seed, n):
 # ---------------------------------------------------------------- C15: invalid-argument matrix
 INVALID_KINDS = ['ltable_not_df', 'rtable_not_df', 'bad_tokenizer', 'unknown_l_key', 'unknown_r_key',
                  'unknown_l_attr', 'unknown_r_attr', 'unknown_l_out', 'unknown_r_out', 'numeric_l_attr',
-                 'numeric_r_attr', 'dup_l_key', 'missing_r_key', 'threshold_low', 'threshold_neg_frac', 'threshold_high',
+                 'numeric_r_attr', 'dup_l_key', 'missing_r_key', 'threshold_low', 'threshold_neg_frac', 'threshold_nan', 'threshold_high',
                  'bad_op', 'non_qgram_for_ed', 'unknown_measure']
 EXPECT = {'ltable_not_df': TypeError, 'rtable_not_df': TypeError, 'bad_tokenizer': TypeError,
           'unknown_measure': TypeError}
@@ -409,6 +409,8 @@ def invalid_call(rng, target, kind_inv):
     elif k == 'threshold_neg_frac':
         # strictly between -1 and 0: truncation toward zero (int(t)) would turn it into a valid 0
         a['t'] = rng.choice([-0.5, -1e-9, -0.999])
+    elif k == 'threshold_nan':
+        a['t'] = float('nan')
     elif k == 'threshold_high':
         if m in ('OVERLAP', 'EDIT_DISTANCE'):
             return None
@@ -427,7 +429,7 @@ def invalid_call(rng, target, kind_inv):
     table_kinds = ('ltable_not_df', 'rtable_not_df', 'unknown_l_key', 'unknown_r_key', 'unknown_l_attr',
                    'unknown_r_attr', 'unknown_l_out', 'unknown_r_out', 'numeric_l_attr', 'numeric_r_attr',
                    'dup_l_key', 'missing_r_key')
-    init_kinds = ('bad_tokenizer', 'threshold_low', 'threshold_neg_frac', 'threshold_high', 'bad_op', 'non_qgram_for_ed', 'unknown_measure')
+    init_kinds = ('bad_tokenizer', 'threshold_low', 'threshold_neg_frac', 'threshold_nan', 'threshold_high', 'bad_op', 'non_qgram_for_ed', 'unknown_measure')
     if target[0] == 'filter_init' and k in table_kinds:
         return None
     if target[0] in ('filter_tables', 'filter_candset') and k in init_kinds:
@@ -436,7 +438,7 @@ def invalid_call(rng, target, kind_inv):
         return None
     if target[0] == 'filter_candset' and k in ('unknown_l_out', 'unknown_r_out'):
         return None
-    if target[0] == 'apply_matcher' and k in ('threshold_low', 'threshold_neg_frac', 'threshold_high', 'non_qgram_for_ed',
+    if target[0] == 'apply_matcher' and k in ('threshold_low', 'threshold_neg_frac', 'threshold_nan', 'threshold_high', 'non_qgram_for_ed',
                                               'unknown_measure', 'numeric_l_attr', 'numeric_r_attr'):
         return None
     if target[0] == 'apply_matcher' and k == 'bad_op':
